@@ -1196,3 +1196,8 @@ fn binop_to_float_cmp(op: &ast::BinOp) -> Option<FloatCmp> {
         _ => return None,
     })
 }
+
+// Verification hook (see /verif/DESIGN.md §2.1): only seen by kani-compiler.
+#[cfg(kani)]
+#[path = "/verif/harness/incrate/lir_lower.rs"]
+mod verif_kani;
